@@ -210,7 +210,18 @@ def smc_case(task):
 
         def once(rng):
             clear_proposal_dist_caches()
-            kernel = make_kernel(kname, td, rng, rho, perm)
+            if task.get("warm_alpha"):
+                # call history: the same kernel first serves a pass under another concentration value, which is then
+                # changed in place without clearing any cache
+                td.prior.alpha = task["warm_alpha"]
+                g = np.random.default_rng([seed, 4712])
+                kernel = make_kernel(kname, td, g, rho, perm)
+                for _ in range(3):
+                    SMCSampler(list(sigma), kernel, num_particles=4, resample_threshold=0.5).sample()
+                td.prior.alpha = alpha
+                kernel._rng = rng
+            else:
+                kernel = make_kernel(kname, td, rng, rho, perm)
             sampler = Recording(list(sigma), kernel, num_particles=N, resample_threshold=0.0)
             swarm = sampler.sample()
             res = []
@@ -234,7 +245,7 @@ def smc_case(task):
                                    dict(case, tree=key, stored=lp1, recomputed=lp1_re))
         part.count("paths", npaths)
         part.count("evaluations")
-        part.see("smc|%s|%s|%s|n%d|N%d|%s" % (kname, rho, perm, n, N, order))
+        part.see("smc|%s|%s|%s|n%d|N%d|%s|w%s" % (kname, rho, perm, n, N, order, task.get("warm_alpha")))
         # expected: every forest over the data for which the order is compatible (outliers only if rho>0)
         forests = gen.all_forests(n, outliers=rho > 0)
         expected = {}
@@ -252,7 +263,9 @@ def smc_case(task):
             part.maxi("max_rel_weight_mass_dev", dev)
             if not dev <= 1e-8:
                 part.violation("SMC (%s kernel): expected weight mass on a tree differs from its target "
-                               "(fixed-root density%s)" % (kname, " x permutation density" if perm else ""),
+                               "(fixed-root density%s)%s" % (kname, " x permutation density" if perm else "",
+                                                            " after a pass under another concentration value (in-place "
+                                                            "change, caches kept)" if task.get("warm_alpha") else ""),
                                dict(case, tree=key, got=got, expected=e,
                                     outliers=sorted(int(x) for x in key.split("O[")[1].rstrip("]").split(",") if x)))
         for key in mass:
@@ -408,6 +421,9 @@ def run(ctx):
                     for order in orders:
                         stasks.append({"kernel": kname, "rho": rho, "perm": perm, "n": n, "N": N, "D": 1, "G": 4,
                                        "alpha": 0.8, "seed": ctx.seed, "order": order})
+                        if kname != "bootstrap" and (n, N) in ((2, 2), (3, 1)):
+                            stasks.append({"kernel": kname, "rho": rho, "perm": perm, "n": n, "N": N, "D": 1, "G": 4,
+                                           "alpha": 0.8, "seed": ctx.seed, "order": order, "warm_alpha": 3.1})
     ctx.map("checks.c08", "smc_case", stasks, timeout=1500)
     ptasks = [{"seed": ctx.seed, "shard": i, "count": 12 if ctx.tier == "quick" else 150} for i in range(16)]
     ctx.map("checks.c08", "path_task", ptasks, timeout=1500)
